@@ -15,8 +15,8 @@ import (
 // C12 — $ref targets are located as RFC 3986 reference resolution prescribes.
 
 var (
-	c12Symbols = []string{"a", "b.json", ".", "..", "c%20d", "é", "UP", "p+q", "~t", "m%2541n"}
-	c12Files   = []string{"b.json", "c%20d.json", "é.json", "UP.JSON", "r%2520s.v2.json"}
+	c12Symbols = []string{"a", "b.json", ".", "..", "c%20d", "é", "UP", "p+q", "~t", "m%2541n", "..x", "..."}
+	c12Files   = []string{"b.json", "c%20d.json", "é.json", "UP.JSON", "r%2520s.v2.json", "..draft.json", "...json"}
 	c12BasesQ  = []string{"file:///w/a/root.json", "file:///root.json", "file:///w/a/b/c/root.json", "http://h.example/d/e.json",
 		"http://h.example:8080/x/y/z.json", "https://s.example/spec.json", "https://s.example/a/b/spec.json", "file:///w/v1/api"}
 	c12BasesT = append(append([]string{}, c12BasesQ...), "file:///w/sp%20ace/root.json", "file:///w/é/root.json", "http://h.example/a/../b/e.json",
@@ -355,7 +355,7 @@ func init() {
 	core.Register(&core.Property{
 		ID:    "C12",
 		Level: "exploration",
-		Rule: "every reference of <= 3 (thorough: 4) path segments over a 10-symbol alphabet (plain, dotted, '.', '..', percent-escaped, non-ASCII, upper-case, '+', '~'), last segment a file name, written relative, root-relative or absolute (2 hosts), " +
+		Rule: "every reference of <= 3 (thorough: 4) path segments over a 12-symbol alphabet (plain, dotted, '.', '..', names that merely begin with two dots, percent-escaped, non-ASCII, upper-case, '+', '~'), last segment a file name, written relative, root-relative or absolute (2 hosts), " +
 			"with 3 fragment shapes, against 7 (thorough: 14) file/http/https bases at depth 0-3 - enumerated completely - plus fragment-only/empty references, references spelled with the trailing segments of the base, and seeded random longer ones; case = batch of 64 pairs. " +
 			"monitor: the recording loader of ResolveRefWithBase(nil, ref, {RelativeBase: base}) is asked exactly once, for net/url's RFC 3986 resolution of ref against base without fragment; normalizeURI (hook H5) agrees, fragment carried over. " +
 			"plus: a document A that refers into a near twin B of its own location (other port, host, scheme, directory or file name) whose target is a fragment-only $ref with a namesake in A - through ExpandSpec and through a first hop from a third location - must read it in B. " +
